@@ -121,30 +121,24 @@ theorem fallback_no_section (secs : List Sec) (value : Str) (cn : Bool) (n : Num
   rw [h]
 
 /-- a numeric value whose selected section holds a token type outside `supportedTokenTypes`
-(conditions, unknown brackets) is not rendered: the result is the stored value, passed through
-alignmentHandler -/
+(conditions, unknown brackets) is not rendered: the result is the stored value VERBATIM — no
+alignment padding (after the second fix window) -/
 theorem fallback_unsupported_token (secs : List Sec) (value : Str) (cn : Bool) (n : NumIn) (d : DateIn)
     (i : Nat) (sec : Sec) (hnum : (cn && n.isNum) = true)
     (h : selectSection secs (valueSectionType secs (cn && n.isNum) n.neg n.zero).1 = some (i, sec))
     (hu : sec.items.any (fun t => !isSupportedTy t.ty) = true) :
-    format secs value cn n d = .ok (alignment sec.items value) := by
+    format secs value cn n d = .ok value := by
   unfold format
   simp only []
   rw [h]
   simp only [hnum, if_true]
   split
-  · simp [positiveHandler, hu, Out.map]
+  · simp [positiveHandler, hu, Out.finish]
   · have : sec.items.any (fun t => !isSupportedTy t.ty || t.ty = "General" || isDateTok t) = true := by
       rw [List.any_eq_true] at hu ⊢
       obtain ⟨t, ht, hb⟩ := hu
       exact ⟨t, ht, by simp [hb]⟩
-    simp [negativeHandler, this, Out.map]
-
-/-- "verbatim" fails when the section starts or ends with an alignment token: `[<0]0.0_)` on 5
-returns "5 " -/
-theorem finding_fallback_padded :
-    alignment [⟨"Condition", bs "<0", []⟩, ⟨"ZeroPlaceHolder", ['0'], []⟩, ⟨"Alignment", [' '], []⟩] ['5'] = ['5', ' '] := by
-  decide
+    simp [negativeHandler, this, Out.finish]
 
 /-! ## thousands separators (clause "thousands-separated codes") -/
 
@@ -218,6 +212,12 @@ def noDate : DateIn where
   loc0 := fun _ => ⟨false, [], [], [], [], [], [], false⟩
   loc1 := fun _ => ⟨false, [], [], [], [], [], [], false⟩
 
+/-- regression witness of the former finding: `[<0]0.0_)` on 5 returns "5", not "5 " -/
+theorem fallback_not_padded :
+    format [⟨"Positive", [⟨"Condition", bs "<0", []⟩, ⟨"ZeroPlaceHolder", ['0'], []⟩, ⟨"Alignment", [' '], []⟩]⟩]
+      ['5'] true (bigLayer "5" "500" 1) noDate = .ok ['5'] := by
+  decide +kernel
+
 /-- more than 15 significant digits (former finding, fixed): printBigNumber rounds the decimal
 digits half away from zero: 1234567890123.4568 as `0.000` renders …123.457, and a carry runs through
 the nines before the separators are inserted -/
@@ -270,12 +270,12 @@ theorem format_total_partial (secs : List Sec) (value : Str) (cn : Bool) (n : Nu
     have hd := h i sec hsel
     split
     · split
-      · apply Out.map_ne_panic
+      · apply Out.finish_ne_panic
         unfold positiveHandler
         split
         · simp
         · exact positiveLoop_no_date _ _ _ _ _ _ _ hd
-      · apply Out.map_ne_panic
+      · apply Out.finish_ne_panic
         exact negative_section_total _ _ _ _
     · simp
 
